@@ -71,6 +71,8 @@ type txRun struct {
 	jKinds     []string
 	retRaw     []*types.Log
 	errText    string
+	gasLeft    uint64
+	gasGiven   uint64
 }
 
 var curTable *table
@@ -109,12 +111,13 @@ func runTx(w *world, o *observer, i int, t txSpec, check bool) txRun {
 		}()
 		switch {
 		case t.Create:
-			_, _, _, logs, err = evm.Create(vm.AccountRef(origin), curTable.compile(t.Init, true), gas, bigU(t.Value))
+			_, _, res.gasLeft, logs, err = evm.Create(vm.AccountRef(origin), curTable.compile(t.Init, true), gas, bigU(t.Value))
 		case t.Static:
-			_, _, logs, err = evm.StaticCall(vm.AccountRef(origin), addrOf(t.Target), nil, gas)
+			_, res.gasLeft, logs, err = evm.StaticCall(vm.AccountRef(origin), addrOf(t.Target), nil, gas)
 		default:
-			_, _, logs, err = evm.Call(vm.AccountRef(origin), addrOf(t.Target), nil, gas, bigU(t.Value))
+			_, res.gasLeft, logs, err = evm.Call(vm.AccountRef(origin), addrOf(t.Target), nil, gas, bigU(t.Value))
 		}
+		res.gasGiven = gas
 	}()
 	res.out = errCode(err)
 	if err != nil {
@@ -358,10 +361,31 @@ func runSpec(seed uint64, fixed *caseSpec, name string, res *hx.Result, cs *hx.C
 
 	// model case
 	if cs != nil {
-		progs := []string{}
+		// the fixed cases are gas-exact: measured static costs go into the programs, the gas supplied into the
+		// transactions, out-of-gas is computed by the model (no forced fates) and the gas left is compared
+		exact := true
+		asInit := map[int]bool{}
 		for _, p := range spec.t.progs {
-			progs = append(progs, coqProg(p))
+			for _, a := range p.Acts {
+				if a.Op == "create" {
+					asInit[a.Init] = true
+				}
+			}
 		}
+		for _, t := range spec.txs {
+			if t.Create {
+				asInit[t.Init] = true
+			}
+		}
+		progs := []string{}
+		for i, p := range spec.t.progs {
+			if exact {
+				progs = append(progs, coqProgG(spec.t, i+1, asInit[i+1]))
+			} else {
+				progs = append(progs, coqProg(p))
+			}
+		}
+		gasLeft := []uint64{}
 		addrs := []uint64{}
 		for _, a := range o.addrs {
 			addrs = append(addrs, o.aid(a))
@@ -385,10 +409,22 @@ func runSpec(seed uint64, fixed *caseSpec, name string, res *hx.Result, cs *hx.C
 			for _, p := range tr.retLogs {
 				rl = append(rl, fmt.Sprintf("(%d,%d)", p[0], p[1]))
 			}
-			txs = append(txs, fmt.Sprintf("(mkTx %d %d %d (%s) %s, (%s, %d, [%s], %s))", i+1, i, idOrigin, kind, nlist(tr.rec.oracleIDs()),
-				nlist(tr.prep), tr.out, strings.Join(rl, ";"), nlist(tr.post)))
+			orc := tr.rec.oracleIDs()
+			if exact {
+				for k, e := range tr.rec.orc {
+					if !e.isAddr {
+						orc[k] = 0
+					}
+				}
+				gasLeft = append(gasLeft, tr.gasLeft)
+				txs = append(txs, fmt.Sprintf("(mkTxG %d %d %d (%s) %s %d, (%s, %d, [%s], %s))", i+1, i, idOrigin, kind, nlist(orc), tr.gasGiven,
+					nlist(tr.prep), tr.out, strings.Join(rl, ";"), nlist(tr.post)))
+			} else {
+				txs = append(txs, fmt.Sprintf("(mkTx %d %d %d (%s) %s, (%s, %d, [%s], %s))", i+1, i, idOrigin, kind, nlist(orc),
+					nlist(tr.prep), tr.out, strings.Join(rl, ";"), nlist(tr.post)))
+			}
 		}
-		term := fmt.Sprintf("Case [%s] %s %s %s %s [%s] [%s]", strings.Join(progs, "; "), coqInit(init), nlist(addrs), nlist(keys), nlist(hashes), strings.Join(sl, ";"), strings.Join(txs, "; "))
+		term := fmt.Sprintf("Case [%s] %s %s %s %s [%s] %s [%s]", strings.Join(progs, "; "), coqInit(init), nlist(addrs), nlist(keys), nlist(hashes), strings.Join(sl, ";"), nlist(gasLeft), strings.Join(txs, "; "))
 		cs.Add(term, map[string]interface{}{"seed": seed, "case": name, "txs": spec.txs, "programs": progDump(spec)})
 	}
 }
